@@ -1,6 +1,7 @@
 package rules
 
 import (
+	"fmt"
 	"go/token"
 	"go/types"
 
@@ -272,6 +273,75 @@ func runC05(c *Ctx) {
 		}
 		bad, good := returnsDerive(fn, 0, src)
 		c.verdict(len(bad) == 0 && len(good) >= 4, c.nm(fn)+" | provenance of returned filter", c.P.Pos(fn.Pos()), "all non-nil returns derive from cache / FilterDB / targetFilter", "a returned filter has another origin at "+join(c.ats(bad)), c.ats(append(good, bad...))...)
+	})
+
+	c.rule("C05.V3", "the filter handed back is the one for the requested block: targetFilter is assigned only behind response.BlockHash == q.<target hash field>, that field is set from prepareCFiltersQuery's blockHash parameter, GetCFilter passes its own blockHash there, and the cache / database lookups of GetCFilter are keyed by that same hash", func() {
+		h := c.fn(fnCFResp)
+		cfBlockHash := c.field(pWire, "MsgCFilter", "BlockHash")
+		hashT := c.P.Named(pChainhash, "Hash")
+		// comparisons response.BlockHash == q.<Hash field>
+		var cmps []ssa.Instruction
+		var target *types.Var
+		ir.Instrs(h, func(in ssa.Instruction) {
+			b, ok := in.(*ssa.BinOp)
+			if !ok || (b.Op != token.EQL && b.Op != token.NEQ) {
+				return
+			}
+			for _, pr := range [][2]ssa.Value{{b.X, b.Y}, {b.Y, b.X}} {
+				if !loadsField(cfBlockHash)(pr[0]) {
+					continue
+				}
+				ld, ok := pr[1].(*ssa.UnOp)
+				if !ok {
+					continue
+				}
+				fa, ok := ld.X.(*ssa.FieldAddr)
+				if !ok || fa.X != ssa.Value(h.Params[0]) {
+					continue
+				}
+				f := ir.FieldOfAddr(fa)
+				if hashT != nil && types.Identical(f.Type(), hashT) {
+					cmps = append(cmps, in)
+					target = f
+				}
+			}
+		})
+		stores := find(h, storeToField(q("targetFilter")))
+		c.guarded(h, equalIs("response.BlockHash == q.targetHash", cmps, true), 1, "q.targetFilter = filter", stores, 1, gDominate)
+		if target == nil {
+			return
+		}
+		// prepareCFiltersQuery: the field is initialised from the blockHash parameter
+		fp := c.fn(fnPrepareCF)
+		okInit := false
+		for _, st := range find(fp, storeToField(target)) {
+			okInit = paramOrSpill(fp.Params[1])(st.(*ssa.Store).Val)
+		}
+		c.verdict(okInit, c.nm(fp)+" | target hash = the requested block hash", c.P.Pos(fp.Pos()), target.Name()+": blockHash", "the query's target hash is not the blockHash parameter")
+		// GetCFilter: same hash everywhere
+		g := c.fn(fnGetCF)
+		param := g.Params[1]
+		isParam := paramOrSpill(param)
+		var bad, sites []string
+		n := 0
+		for _, spec := range []struct {
+			sel Sel
+			arg int
+			nm  string
+		}{
+			{callTo(c.method("neutrino", "ChainService", "prepareCFiltersQuery")), 0, "prepareCFiltersQuery"},
+			{callTo(c.method("neutrino", "ChainService", "getFilterFromCache")), 0, "getFilterFromCache"},
+			{callTo(c.method("filterdb", "FilterDatabase", "FetchFilter")), 0, "FilterDB.FetchFilter"},
+		} {
+			for _, x := range find(g, spec.sel) {
+				n++
+				sites = append(sites, spec.nm+"@"+c.at(x))
+				if !isParam(argsOf(x)[spec.arg]) {
+					bad = append(bad, spec.nm+" at "+c.at(x)+" is not given the requested block hash")
+				}
+			}
+		}
+		c.verdict(len(bad) == 0 && n >= 4, c.nm(g)+" | cache, database and network lookups use the requested hash", c.P.Pos(g.Pos()), fmt.Sprintf("%d lookups keyed by blockHash", n), join(bad)+fmt.Sprintf(" (%d lookups)", n), sites...)
 	})
 
 	c.rule("C05.P1", "GetCFilter serialises network fetches: the second cache lookup, the range preparation and the query all run with mtxCFilter held, so two callers cannot fetch (and validate against) the same range concurrently and the re-check after the lock sees the other caller's result", func() {
